@@ -289,6 +289,13 @@ def handle (op : String) (args : List String) : String :=
       | .ok (l, t, st) => "ok\t" ++ (SExpr.list [l.toSExpr, renderTy t, .list (PyVal.toSExprL st.md), strsToSExpr st.log]).render
       | .error err => "err\t" ++ err.render)
     | _, _, _ => bad
+  | "streamOpTy", [m, op, ty, lam] =>
+    -- the declared-type checker (Model/TypeSpec.lean): the specification of C08, run on the lambda the user wrote
+    match parseModel m, (SExpr.parse ty).bind parseTy, parseExpr lam with
+    | some m, some ty, some (.lam [x] body) => (match streamOpTy m op ty x body with
+      | .ok t => "ok\t" ++ (renderTy t).render
+      | .error err => "err\t" ++ err.render)
+    | _, _, _ => bad
   | "untypedHyp", [m, ty, lam] =>
     -- hypotheses of streamOp_untyped_identity: untyped item type, no call of a registered function by name
     match parseModel m, (SExpr.parse ty).bind parseTy, parseExpr lam with
